@@ -448,4 +448,141 @@ theorem collectRefM_getElem? (g : Grp) (hI : Inv g) (m : Nat) (refs : List (Idx 
   have hlt : k < (rowsOf g m).length := (List.getElem?_eq_some_iff.mp hk).1
   simp [hlt]
 
+/-! ## device finder -/
+
+def inScope (c : FCfg) (d : Dev) : Prop := if c.isModel then d.mdl = c.target else d.mdl < c.nm
+
+theorem noSentinel_none (g : Grp) : NoSentinel g none := by intro i h; cases h
+
+theorem hits_single (rows : Grp) (key : Nat) (v : Val) (i : Idx) :
+    i ∈ hits rows [key] [v] ↔ ∃ d ∈ rows, d.idx = i ∧ d.get key = v := by
+  rw [mem_hits]; simp
+
+theorem search_model (c : FCfg) (g : Grp) (key : Nat) (v : Val) (hm : c.isModel = true) :
+    search c g key v = (hits (rowsOf g c.target) [key] [v]).head? := by
+  unfold search
+  rw [if_pos hm]
+  unfold modelFind modelFindOne
+  cases hh : hits (rowsOf g c.target) [key] [v] with
+  | nil => simp [hh, headOnly]
+  | cons a t => simp [hh, headOnly]
+
+theorem search_group (c : FCfg) (g : Grp) (key : Nat) (v : Val) (hm : c.isModel = false) :
+    search c g key v = ((groupFindOne g c.nm [key] none [v]).1.head?).join := by
+  unfold search
+  simp only [hm, Bool.false_eq_true, if_false]
+  unfold groupFind
+  cases hh : (groupFindOne g c.nm [key] none [v]).1 with
+  | nil => simp [headOnly, hh]
+  | cons a t => simp [headOnly, hh]
+
+theorem search_some (c : FCfg) (g : Grp) (key : Nat) (v : Val) (j : Idx) (h : search c g key v = some j) :
+    ∃ d, d ∈ g ∧ d.idx = j ∧ d.get key = v ∧ inScope c d := by
+  cases hm : c.isModel with
+  | true =>
+    rw [search_model c g key v hm] at h
+    have hj : j ∈ hits (rowsOf g c.target) [key] [v] := List.mem_of_head? h
+    obtain ⟨d, hd, h1, h2⟩ := (hits_single _ _ _ _).mp hj
+    have := mem_rowsOf.mp hd
+    exact ⟨d, this.1, h1, h2, by simp [inScope, hm, this.2]⟩
+  | false =>
+    rw [search_group c g key v hm] at h
+    rcases groupFindOne_spec g c.nm [key] none [v] (noSentinel_none g) with ⟨_, h2⟩ | ⟨m, hm', _, _, h2⟩
+    · rw [h2] at h; simp at h
+    · rw [h2] at h
+      cases hh : hits (rowsOf g m) [key] [v] with
+      | nil => rw [hh] at h; simp at h
+      | cons a t =>
+        rw [hh] at h; simp at h; subst h
+        have hj : a ∈ hits (rowsOf g m) [key] [v] := by rw [hh]; simp
+        obtain ⟨d, hd, h1, h2⟩ := (hits_single _ _ _ _).mp hj
+        have := mem_rowsOf.mp hd
+        exact ⟨d, this.1, h1, h2, by simp [inScope, hm, this.2, hm']⟩
+
+theorem search_none (c : FCfg) (g : Grp) (key : Nat) (v : Val) (h : search c g key v = none) :
+    ∀ d, d ∈ g → inScope c d → d.get key ≠ v := by
+  intro d hd hsc hv
+  cases hm : c.isModel with
+  | true =>
+    rw [search_model c g key v hm] at h
+    have : d.idx ∈ hits (rowsOf g c.target) [key] [v] :=
+      (hits_single _ _ _ _).mpr ⟨d, mem_rowsOf.mpr ⟨hd, by simpa [inScope, hm] using hsc⟩, rfl, hv⟩
+    rw [List.head?_eq_none_iff] at h
+    rw [h] at this; cases this
+  | false =>
+    rw [search_group c g key v hm] at h
+    have hlt : d.mdl < c.nm := by simpa [inScope, hm] using hsc
+    have hin : d.idx ∈ hits (rowsOf g d.mdl) [key] [v] :=
+      (hits_single _ _ _ _).mpr ⟨d, mem_rowsOf.mpr ⟨hd, rfl⟩, rfl, hv⟩
+    rcases groupFindOne_spec g c.nm [key] none [v] (noSentinel_none g) with ⟨h1, _⟩ | ⟨m, _, hne, _, h2⟩
+    · have := (allHits_nil_iff g c.nm [key] [v]).mp h1 d.mdl hlt
+      rw [this] at hin; cases hin
+    · rw [h2] at h
+      cases hh : hits (rowsOf g m) [key] [v] with
+      | nil => exact hne hh
+      | cons a t => rw [hh] at h; simp at h
+
+structure FOk (c : FCfg) : Prop where
+  key : 2 ≤ c.linkKey
+  keyle : c.linkKey ≤ c.nvals
+  scope : if c.isModel then c.addTo = c.target else c.addTo < c.nm
+
+theorem fillName_getD (i : Idx) (l : List Val) (k : Nat) : (fillName i l).getD (k + 1) none = l.getD (k + 1) none := by
+  cases l with
+  | nil => rfl
+  | cons a t => cases a <;> simp [fillName]
+
+theorem newDev_get_link (names : List String) (c : FCfg) (g : Grp) (link : Val) (h : FOk c) :
+    (newDev names g c.addTo none (linkVals c link)).get c.linkKey = link := by
+  obtain ⟨k, hk⟩ : ∃ k, c.linkKey = k + 2 := ⟨c.linkKey - 2, by have := h.key; omega⟩
+  have hle := h.keyle
+  simp only [newDev, hk, Dev.get, linkVals]
+  rw [fillName_getD]
+  have : k + 2 - 1 = k + 1 := by omega
+  rw [this, List.getD_eq_getElem?_getD, List.getElem?_set_self (by simp; omega)]
+  rfl
+
+theorem newDev_inScope (names : List String) (c : FCfg) (g : Grp) (vals : List Val) (h : FOk c) :
+    inScope c (newDev names g c.addTo none vals) := by
+  have := h.scope
+  unfold inScope
+  by_cases hm : c.isModel = true
+  · simp [hm] at this ⊢; simp [newDev, this]
+  · simp [hm] at this ⊢; simp [newDev, this]
+
+theorem findOrAdd_spec (names : List String) (c : FCfg) (g : Grp) (u link : Val) :
+    (∃ j, c.autoFind = true ∧ search c g c.linkKey link = some j ∧ findOrAdd names c g u link = (g, some j)) ∨
+    ((c.autoFind = true → search c g c.linkKey link = none) ∧ c.autoAdd = true ∧
+      findOrAdd names c g u link = (addDev names g c.addTo none (linkVals c link),
+        some (newDev names g c.addTo none (linkVals c link)).idx)) ∨
+    ((c.autoFind = true → search c g c.linkKey link = none) ∧ c.autoAdd = false ∧
+      findOrAdd names c g u link = (g, u)) := by
+  unfold findOrAdd
+  by_cases hf : c.autoFind = true
+  · cases hs : search c g c.linkKey link with
+    | some j => left; exact ⟨j, hf, rfl, by simp [hf]⟩
+    | none =>
+      right
+      by_cases ha : c.autoAdd = true
+      · left; exact ⟨fun _ => rfl, ha, by simp [hf, ha, addDev]⟩
+      · right; exact ⟨fun _ => rfl, by simpa using ha, by simp [hf, ha]⟩
+  · right
+    by_cases ha : c.autoAdd = true
+    · left; exact ⟨fun h => absurd h hf, ha, by simp [hf, ha, addDev]⟩
+    · right; exact ⟨fun h => absurd h hf, by simpa using ha, by simp [hf, ha]⟩
+
+/-- one entry of `find_or_add`: the answer `r` appended to `v`, and the group afterwards -/
+theorem finderStep_spec (names : List String) (c : FCfg) (g : Grp) (vs : List Val) (u link : Val) :
+    (∃ i, u = some i ∧ search c g 0 (some i) = some i ∧ finderStep names c (g, vs) (u, link) = (g, vs ++ [some i])) ∨
+    ((∀ i, u = some i → search c g 0 (some i) ≠ some i) ∧
+      finderStep names c (g, vs) (u, link) =
+        ((findOrAdd names c g u link).1, vs ++ [(findOrAdd names c g u link).2])) := by
+  unfold finderStep
+  cases u with
+  | none => right; exact ⟨fun i h => by simp at h, rfl⟩
+  | some i =>
+    by_cases h : search c g 0 (some i) = some i
+    · left; exact ⟨i, rfl, h, by simp [h]⟩
+    · right; exact ⟨fun j hj => by cases hj; exact h, by simp [h]⟩
+
 end Andes.Registry
